@@ -246,13 +246,17 @@ def agent_cases(max_contacts):
                 yield {'kind': 'agent', 'contacts': [list(c) for c in combo], 'action': action}
             if count == 1:
                 yield {'kind': 'agent', 'contacts': [list(c) for c in combo], 'action': 'shutdown', 'late_accept': True}
+            if count <= 2:
+                # the peer of the first contact hangs from the moment of the shutdown on (connection open, nothing sent
+                # any more); with an idle time configured no contact may stay half-open
+                yield {'kind': 'agent', 'contacts': [list(c) for c in combo], 'action': 'shutdown', 'hang': [0], 'idle': 5}
 
 
 def execute_agent(case):
     ''' One real agent, several contacts, shutdown() or stop(): nothing may be left open. '''
     from vlib import tcpcl_agentworld as aw
     out = Outcome()
-    world = aw.AgentWorld(case['contacts'])
+    world = aw.AgentWorld(case['contacts'], idle_time=case.get('idle', 0), hang=case.get('hang', ()))
     world.prepare()
     action = case['action']
     desc = '%s with contacts %s' % (action, ['%s/%s' % (c.state, 'passive' if c.passive else 'active') for c in world.contacts])
@@ -273,6 +277,9 @@ def execute_agent(case):
         if not world.stops:
             out.fail('agent-stop-not-signalled', 'stop() did not run the on-stop callback (%s)' % desc)
     quiet = world.release()
+    if case.get('hang'):
+        quiet = world.advance(4000 * case['idle']) and quiet
+        out.label('hung-peer')
     if not quiet:
         out.fail('agent-never-quiescent', 'the agent and its cooperative peers never came to rest (%s)' % desc)
     for esc in world.escapes():
@@ -298,7 +305,7 @@ def execute_agent(case):
                              % (con.index, con.state, len(terms), desc))
             elif len(terms) > 1:
                 out.fail('shutdown-sess-term-count', 'contact %d (%s) wrote %d SESS_TERM (%s)' % (con.index, con.state, len(terms), desc))
-            if con.state == 'transfer' and not hasattr(con.own_id, 'exc'):
+            if con.state == 'transfer' and not hasattr(con.own_id, 'exc') and con.index not in case.get('hang', ()):
                 data = b''.join(bytes.fromhex(m['data']) for m in msgs if m['t'] == 'XFER_SEGMENT' and m['id'] == int(con.own_id))
                 fin = [e for e in dbus_signals(con.hdl, 'send_bundle_finished') if e['args'][0] == str(con.own_id)]
                 if data != aw.BUNDLE or not any(e['args'][2] == 'success' for e in fin):
